@@ -100,7 +100,7 @@ def run(pid, tier):
                 R.cov["exhaustive"] = False
             recs += [(rec, f"{kind}/{label}") for rec in exports if rec["viol"]["op"] != "none"]
     jobs = [dict(rec=rec, seed=sd * 7 + 1, idx=i, keep=(i % 499 == 0)) for i, (rec, _) in enumerate(recs)]
-    results = driverprops.pool_map(_work, jobs)
+    results = driverprops.pool_map_shared(_work, jobs)
     per_op = {}
     cli_pick = []
     for w in results:
